@@ -29,7 +29,7 @@ pub fn run(cfg: &RunCfg) -> Ctx {
     all.floor("wire.trailers_requested_early", 20);
     all.floor("wire.ok_status_with_trailing_metadata", 20);
     all.merge(par_cases(cfg, "accessors", cfg.n(25_000, 16 * 400_000), || (), |_, rng, ctx, _| accessor_case(rng, ctx)));
-    for k in ["acc.bin_len_mod3.0", "acc.bin_len_mod3.1", "acc.bin_len_mod3.2", "acc.padded_peer_value", "acc.invalid_base64_value", "acc.repeated_key", "acc.mixed_case_key", "acc.binary_value_constructors", "acc.status_from_error_chain"] {
+    for k in ["acc.bin_len_mod3.0", "acc.bin_len_mod3.1", "acc.bin_len_mod3.2", "acc.padded_peer_value", "acc.invalid_base64_value", "acc.repeated_key", "acc.repeated_key_read_from_both_ends", "acc.mixed_case_key", "acc.binary_value_constructors", "acc.status_from_error_chain"] {
         all.floor(k, 10);
     }
     #[cfg(feature = "full")]
@@ -366,6 +366,21 @@ fn accessor_case(rng: &mut Rng, ctx: &mut Ctx) {
                 }
             }
             let all: Vec<_> = m.get_all_bin(k.as_str()).iter().collect();
+            {
+                // read from the back: the same value objects, in reverse
+                let mut back: Vec<_> = m.get_all_bin(k.as_str()).iter().rev().collect();
+                back.reverse();
+                if back != all {
+                    ctx.violation("get-all-reverse-order", format!("{}: get_all_bin().iter().rev() does not yield the values of forward iteration reversed", k));
+                }
+                if all.len() > 1 {
+                    ctx.count("acc.repeated_key_read_from_both_ends");
+                    let mut it = m.get_all_bin(k.as_str()).iter();
+                    if it.next_back() != all.last().copied() || it.next() != all.first().copied() {
+                        ctx.violation("get-all-two-ended", format!("{}: next_back()/next() on get_all_bin() are not the last/first value", k));
+                    }
+                }
+            }
             if all.len() != vals.len() {
                 ctx.violation("get-all-bin-count", format!("{}: {} values, map has {}", k, all.len(), vals.len()));
             } else {
@@ -399,6 +414,34 @@ fn accessor_case(rng: &mut Rng, ctx: &mut Ctx) {
             let want: Vec<Vec<u8>> = vals.iter().map(|e| e.1.clone()).collect();
             if all != want {
                 ctx.violation("get-all-order", format!("{}: get_all order/values differ", k));
+            }
+            // the same values read from the back, and from both ends alternately
+            let mut back: Vec<Vec<u8>> = m.get_all(k.as_str()).iter().rev().map(|v| v.as_bytes().to_vec()).collect();
+            back.reverse();
+            if back != want {
+                ctx.violation("get-all-reverse-order", format!("{}: get_all().iter().rev() does not yield the values of forward iteration reversed", k));
+            }
+            {
+                let mut it = m.get_all(k.as_str()).iter();
+                let (mut front, mut tail) = (Vec::new(), Vec::new());
+                loop {
+                    match it.next() {
+                        Some(v) => front.push(v.as_bytes().to_vec()),
+                        None => break,
+                    }
+                    match it.next_back() {
+                        Some(v) => tail.push(v.as_bytes().to_vec()),
+                        None => break,
+                    }
+                }
+                tail.reverse();
+                front.extend(tail);
+                if front != want {
+                    ctx.violation("get-all-two-ended", format!("{}: alternating next()/next_back() on get_all() yields {} values in another order than the map's {}", k, front.len(), want.len()));
+                }
+            }
+            if want.len() > 1 {
+                ctx.count("acc.repeated_key_read_from_both_ends");
             }
         }
     }
